@@ -31,6 +31,17 @@ template <class T, size_t N, size_t NM> static void run(const std::string& dist,
     else if (dist == "bounded") a = nfl::non_uniform(strtoull(prm[0].c_str(), 0, 10), strtoull(prm[1].c_str(), 0, 10));
     else if (dist == "zo") a = nfl::ZO_dist((uint8_t)strtoul(prm[0].c_str(), 0, 10));
     else if (dist == "hwt") a = nfl::hwt_dist((uint32_t)strtoul(prm[0].c_str(), 0, 10));
+    else if (dist == "gauss") {   // prm: amplifier sigma centre ; the noise vector is printed too (same tape replayed)
+      nfl::FastGaussianNoise<uint8_t, T, 1> fg(atof(prm[1].c_str()), 40, 1024, atof(prm[2].c_str()));
+      size_t mark = tpos;
+      a = nfl::gaussian<uint8_t, T, 1>(&fg, strtoull(prm[0].c_str(), 0, 10));
+      size_t endpos = tpos; std::vector<size_t> r1 = reqs;
+      tpos = mark; std::vector<T> noise(N);
+      fg.getNoise(noise.data(), N);
+      tpos = endpos; reqs = r1;
+      os << "ok"; show(os, a); os << " noise="; for (size_t i = 0; i < N; i++) os << (ull)noise[i] << ",";
+      return;
+    }
     else { os << "baddist"; return; }
   } catch (std::runtime_error const&) { thrown = true; }
   os << (thrown ? "throw" : "ok"); if (!thrown) show(os, a);
